@@ -190,7 +190,7 @@ func FromCarReader(r io.Reader) (Reader, error) {
 
 // FromCarBase64 decodes a base64 CAR file encoded container.
 func FromCarBase64(data []byte) (Reader, error) {
-	return FromCarReader(bytes.NewReader(data))
+	return FromCarBase64Reader(bytes.NewReader(data))
 }
 
 // FromCarBase64Reader is the same as FromCarBase64, but with an io.Reader.
